@@ -39,6 +39,11 @@ def nul_typestate(ck, ctx, entries, rule="nul-typestate"):
         key = "%s|loop#%d" % (fn, k)
         bad = ts.noadv.get(key)
         ck.ob("advance", key, bad is None, ("every cycle through loop #%d of %s consumes at least one input byte (the cursor is bounded by the buffer, so the loop terminates)" % (k, fn)) if bad is None else "a cycle through loop #%d of %s may consume no input (lower bound of net advance %s): possible endless loop; reached via %s" % (k, fn, bad["lb"], " -> ".join(x.split("::")[-1] for x in bad["chain"])), span=(bad or {}).get("loc") or F.body(fn).loc, fn=fn)
+    # slice-ordered: Scanner::slice is unchecked, so at every call start <= end must follow from how the offsets were obtained
+    # (snapshots of scanner.ofs and the net movement between them), on every path and in every calling context
+    for key, rec in ts.slices.items():
+        ck.ob("slice-ordered", key, rec["ok"], "Scanner::slice(start, end) in %s: %s on every path (%s)" % (rec["fn"], "start <= end" if rec["ok"] else "start <= end is NOT established", "; ".join(rec["why"][:4])), span=rec["loc"], fn=rec["fn"])
+    ck.floor("Scanner::slice sites checked for ordered offsets", len(ts.slices), 6 if len(entries) > 1 else 1)
     ck.floor("scanner-driven loops checked for progress", len(ts.loops_checked), 8 if len(entries) > 1 else 3)
     ck.extra["typestate"] = dict(functions=len(fns), contexts=len(ts.memo), site_contexts=len(ts.site_keys), loops=len(ts.loops_checked), exits={e: sorted({str((x[0], x[1])) for x in r}) for e, r in res.items()})
     ck.extra["typestate_raw_exits"] = {e: sorted(r, key=str) for e, r in res.items()}
@@ -226,10 +231,53 @@ def format_error_shape(ck, ctx, rule="diagnostic"):
         clo = strip(R.arg(bb, 1))
         if clo[0] == "agg" and clo[1] == "closure":
             cb = F.body(clo[2])
-            consts = [s["rv"]["b"]["int"] for blk in cb.blocks for s in blk["stmts"] if s["k"] == "assign" and s["rv"]["k"] == "bin" and s["rv"]["b"]["k"] == "const"]
-            ck.ob(rule, "splits-on-newline", consts == [10], "lines are split on '\\n' (%s)" % consts, span=cb.loc, fn=cb.nname)
+            from n2sa import bytetable as BT
+            tab = BT.predicate_table(cb, 2)
+            trues = tab.get(1, tab.get(True))
+            ck.ob(rule, "splits-on-newline", trues == [10] and not tab.get(None), "lines are split exactly at '\\n' (predicate true for %s, evaluated for all 256 bytes)" % trues, span=cb.loc, fn=cb.nname)
+    # the lines tile the buffer: the running offset starts at 0 and grows by len(line) + 1 after each line that does not contain the
+    # error offset; hence when `ofs + len >= err.ofs` first holds, ofs <= err.ofs and the column `err.ofs - ofs` cannot underflow
+    names = {nm: l for l, nm in b.names.items()}
+    ofs_l = names.get("ofs")
+    tiling = False
+    det = "no running offset"
+    if ofs_l is not None:
+        defs = []
+        for bi in cfg.reach:
+            for si, s_ in enumerate(b.blocks[bi]["stmts"]):
+                if s_["k"] == "assign" and not s_["place"]["p"] and s_["place"]["l"] == ofs_l:
+                    defs.append((bi, R.stmt_rvalue(bi, s_)))
+        inits = [e for bi, e in defs if cfg.enclosing_loop_header(bi) is None]
+        incs = [strip(e) for bi, e in defs if cfg.enclosing_loop_header(bi) is not None]
+
+        def is_len_line(x):
+            x = strip(x)
+            return x[0] == "call" and x[1].endswith("::len")
+
+        def is_ofs_plus_len(x):
+            x = strip(x)
+            return x[0] == "bin" and x[1] == "Add" and is_len_line(x[3]) and not is_len_line(x[2])
+
+        inc_ok = len(incs) == 1 and incs[0][0] == "bin" and incs[0][1] == "Add" and ((incs[0][3] == ("const", 1) and is_ofs_plus_len(incs[0][2])) or (strip(incs[0][3])[0] == "bin" and strip(incs[0][3])[1] == "Add" and strip(incs[0][3])[3] == ("const", 1) and is_len_line(strip(incs[0][3])[2])))
+        tests = [sbb for sbb, st, e in Q.switches(ctx, b) if strip(e)[0] == "bin" and strip(e)[1] == "Ge" and is_ofs_plus_len(strip(e)[2]) and field_chain(strip(strip(e)[3]))[1][-1:] == ["ofs"]]
+        cols = [bi for bi in cfg.reach for s_ in b.blocks[bi]["stmts"] if s_["k"] == "assign" and not s_["place"]["p"] and b.local_name(s_["place"]["l"]) == "col" and strip(R.stmt_rvalue(bi, s_))[0] == "bin" and strip(R.stmt_rvalue(bi, s_))[1] == "Sub" and field_chain(strip(strip(R.stmt_rvalue(bi, s_))[2]))[1][-1:] == ["ofs"]]
+        tiling = inits == [("const", 0)] and inc_ok and len(tests) == 1 and len(cols) >= 1 and all(Q.gated(cfg, c_, {(tests[0], Q.bool_edges(b.blocks[tests[0]]["term"])[0])})[0] for c_ in cols)
+        det = "init %s, %d increments (%s), %d selection tests, %d column computations" % ([show(e) for e in inits], len(incs), "ofs + len + 1" if inc_ok else "unrecognised", len(tests), len(cols))
+    ck.ob(rule, "line-tiling", tiling, "the running line offset starts at 0, advances by line.len() + 1 per skipped line, and a line is selected by `ofs + line.len() >= err.ofs`: so `err.ofs - ofs` cannot underflow (%s)" % det, span=b.loc, fn=b.nname)
+    # the message names file and line: the `<file>:<line>: ` prefix with line = index + 1 is appended on the way to every return
+    pre_ok = False
+    for bi in cfg.reach:
+        for s_ in b.blocks[bi]["stmts"]:
+            if s_["k"] == "assign" and not s_["place"]["p"] and b.local_name(s_["place"]["l"]) == "prefix":
+                pass
+    pushes = [(bb_, t_) for bb_, t_ in b.calls() if callee_of(t_).endswith("String::push_str")]
+    for bb_, t_ in pushes:
+        a_ = strip(R.arg(bb_, 1))
+        if any(c[1].endswith("fmt::format") or c[1].endswith("format::format_inner") or "format" in c[1] for c in calls_in(a_)) and any(y[0] == "bin" and y[1] == "Add" and y[3] == ("const", 1) for y in walk(a_)) and any(c[1].endswith("Path::display") for c in calls_in(a_)):
+            pre_ok = all(cfg.dominates(bb_, r_) for r_ in cfg.returns())
+    ck.ob(rule, "names-file-and-line", pre_ok, "the `<file>:<line>: ` prefix (line = 0-based index + 1, file = the path argument's display()) is appended on every path to the return", span=b.loc, fn=b.nname)
     strs = Q.body_strings(F, b)
-    ck.ob(rule, "texts", any("parse error: " in s for s in strs) and any("^" in s for s in strs), "the message has the `parse error: ` prefix and a caret line", span=b.loc, fn=b.nname)
+    ck.ob(rule, "texts", any("parse error: " in s for s in strs), "the message starts with `parse error: `", span=b.loc, fn=b.nname)
     # byte-slice cuts with computed bounds
     cuts = [(bb, t) for bb, t in b.calls() if callee_of(t).startswith("core::slice::index::") and callee_of(t).endswith("::index")]
     for i, (bb, t) in enumerate(cuts):
@@ -243,7 +291,8 @@ def format_error_shape(ck, ctx, rule="diagnostic"):
                 k = lo[3][1]
                 def pred(e, lo=lo, k=k):
                     e = strip(e)
-                    return e[0] == "bin" and e[1] == "Gt" and strip(e[2]) == strip(lo[2]) and e[3][0] == "const" and e[3][1] >= k
+                    # col > m with m >= k - 1, or col >= m with m >= k: either way col - k cannot underflow
+                    return e[0] == "bin" and e[1] in ("Gt", "Ge") and strip(e[2]) == strip(lo[2]) and e[3][0] == "const" and e[3][1] + (1 if e[1] == "Gt" else 0) >= k
                 g = C.bool_gate_edges(ctx, b, pred)
                 ok = Q.gated(cfg, bb, g)[0]
                 why = "start = col - %d under col > bound (gates %s); col <= line.len() by the line-selection test" % (k, sorted(g))
@@ -252,7 +301,8 @@ def format_error_shape(ck, ctx, rule="diagnostic"):
             if lo == ("const", 0) and hi[0] == "const":
                 def pred(e, hi=hi):
                     e = strip(e)
-                    return e[0] == "bin" and e[1] == "Gt" and e[3] == hi and strip(e[2])[0] == "call" and strip(e[2])[1].endswith("slice::len")
+                    # len > m with m >= hi - 1, or len >= m with m >= hi
+                    return e[0] == "bin" and e[1] in ("Gt", "Ge") and e[3][0] == "const" and e[3][1] + (1 if e[1] == "Gt" else 0) >= hi[1] and strip(e[2])[0] == "call" and strip(e[2])[1].endswith("slice::len")
                 g = C.bool_gate_edges(ctx, b, pred)
                 ok = Q.gated(cfg, bb, g)[0]
                 why = "0..%d under len > %d (gates %s)" % (hi[1], hi[1], sorted(g))
